@@ -3,12 +3,14 @@ import CvDriver.C18
 import CvDriver.C15
 import CvDriver.C11
 import CvDriver.Mod
+import CvDriver.C20
 open Drv
 
 structure DState where
   grid : GridSt := {}
   ms : MsSt := {}
   mod : ModSt := {}
+  script : ScriptSt := {}
 
 def stepLine (s : DState) (ln : Nat) (line : String) : DState × List String :=
   let t := toks line
@@ -23,6 +25,9 @@ def stepLine (s : DState) (ln : Nat) (line : String) : DState × List String :=
     | none =>
     match c11 s.ms ln t with
     | some (m, o) => ({ s with ms := m }, o)
+    | none =>
+    match c20 s.script ln t with
+    | some (m, o) => ({ s with script := m }, o)
     | none =>
     match modOps s.mod ln t with
     | some (m, o) => ({ s with mod := m }, o)
